@@ -176,6 +176,15 @@ func (g *gen) store(fr *frame, n *node, st *State, addr ssa.Value, val Val, pos 
 	default:
 		g.safety(n, "nil", "", pos, not(app("=", ref, "null")))
 	}
+	if ia, ok := addr.(*ssa.IndexAddr); ok && !g.c.strMode {
+		if sl, ok := ia.X.Type().Underlying().(*types.Slice); ok {
+			if b, ok := sl.Elem().Underlying().(*types.Basic); ok && b.Kind() == types.Uint8 {
+				// element-wise write into a byte slice: its abstract contents become unknown
+				m := g.svGet(st, "$bytes", "(Array Int Bytes)")
+				g.svAssign(n, st, "$bytes", "(Array Int Bytes)", app("store", m, app("sbase", g.sval(fr, ia.X)), g.c.fresh("bytes", "Bytes")))
+			}
+		}
+	}
 	g.storeAt(n, st, ref, pt.Elem(), val)
 }
 
